@@ -36,6 +36,16 @@ CHECKS = {
        "bytes through all six iterators with every accessor called under catch_unwind, every CID x truncation point, mutated 255-byte streams, and the frame parsers.",
   note=COMMON_NOTE + "The proc-macro itself is not verified: its generated behaviour is modelled generically (Model/MacCmd.v) and tied by the exhaustive differential run; its table input is tied by the translator (trusted python, ~200 lines). Memory safety of safe Rust is the compiler's business.",
   tech="machine-checked proof in Coq (generic over command tables) + translator-regenerated tables/index sets + exhaustive short-string correspondence", ref="6 C03"),
+ "C19": dict(
+  text="Coq theorems (Props/C19.v): every byte-wide field of every creator, for EVERY prior byte content and EVERY argument (exhaustive 256x256 sweep per field, lifted by "
+       "forallb_forall): the setter refuses exactly the out-of-range values of range-checked fields, else stores the value truncated to the field, and leaves all other bits and "
+       "bytes unchanged; accessors read those bits back (sweep); signed 6-bit margin; every wider field round-trips by a little-endian write/read lemma (all widths, all values); "
+       "a stream of whole commands parses back to the same sequence (any table); MSB-first hex text forms parse back to the value for every width and value (induction on bytes). "
+       "Known finding proved as C19_device_time_seconds_refuted / _is_byteswap. Tied to the code by running model and implementation on every value of every byte field, random "
+       "setter sequences, push/echo/raw creators, accessors over every CID, build_mac_commands sequences, all 2^16 DevNonce strings, random/boundary identifiers and keys, malformed "
+       "strings; plus a property-level round-trip oracle run on the implementation alone.",
+  note=COMMON_NOTE + "hex crate / core::fmt / from_str_radix are modelled as digit-list functions (incl. the accepted leading '+'). Multicast mc_key (AES wrap) setter and certification payloads without accessors are compared byte-wise only.",
+  tech="machine-checked proof in Coq (exhaustive byte sweeps + LE/hex induction lemmas) + differential correspondence + round-trip oracle on the implementation", ref="6 C19"),
  "C15": dict(
   text="Coq theorems: every driver's LDRO decision and the bit programmed into the chip equal the airtime calculator's, and that "
        "decision is 'on' exactly when 2^SF*10^6 >= 16384*BW (exact arithmetic) for all SF 5..12 x all 10 bandwidths. The models are "
